@@ -435,6 +435,17 @@ def _ptp_by_evaluation(ck, world, table) -> bool:
     return True
 
 
+def _only_reshapes(t, raw) -> bool:
+    """`t` is `raw` itself, possibly under ravel / reshape / flatten / astype calls (nothing that changes a value)."""
+    while True:
+        if t == raw:
+            return True
+        if isinstance(t, tuple) and t and t[0] == 'call' and isinstance(t[1], tuple) and t[1][0] == 'attr' and t[1][2] in ('ravel', 'reshape', 'flatten', 'astype'):
+            t = t[1][1]
+            continue
+        return False
+
+
 def _r_ptp_written(ck, world, table) -> None:
     rule = table.by_name('TransposeIndexRule')
     info = rule_info(table, rule)
@@ -475,9 +486,42 @@ def _r_ptp_written(ck, world, table) -> None:
             index_t = ('sub', ('attr', R, 'indices'), axis_t)
             cov_s = show(cov)
             uniq_call = None
+            bin_call = None  # the histogram form: coverage = jnp.bincount(index.ravel(), length=size)[.astype(dtype)]
             for st in path.stmts():
                 if isinstance(st, ast.Assign) and isinstance(st.value, ast.Call) and world.qualify(module_of(st), st.value.func) == 'jax.numpy.unique':
                     uniq_call = st
+                if isinstance(st, ast.Assign):
+                    for sub_ in ast.walk(st.value):
+                        if isinstance(sub_, ast.Call) and world.qualify(module_of(st), sub_.func) in ('jax.numpy.bincount', 'numpy.bincount'):
+                            bin_call = (st, sub_)
+            if uniq_call is None and bin_call is None:
+                # neither counting form is present: the written-form clauses do not apply (the evaluation above decides
+                # placement; the multiplicities themselves are then not decided)
+                ck.expect('R-PTP', struct_ok and axis_ok, fn, 'the diagonal lives on right.in_structure(), its values placed along the indexed axis',
+                          f'the diagonal replacing P^T P is not built on the input structure of P along the indexed axis: structure ok={struct_ok}, axis ok={axis_ok}', instance='diagonal placement')
+                ck.incomplete('R-PTP', fn, 'the multiplicities are computed neither with jnp.unique(..., return_counts=True) + .at[].add nor with jnp.bincount(..., length=): '
+                              'this way of counting is not modelled, so neither the alias clause nor the multiplicity clause is decided', instance='multiplicity diagonal')
+                continue
+            if uniq_call is None:
+                st_, bc = bin_call
+                e0 = path_env(path, upto=st_)
+                args = [term(a, e0) for a in bc.args]
+                kw = {k.arg: term(k.value, e0) for k in bc.keywords}
+                uniq_ok = bool(args) and contains(args[0], index_t)
+                # `length=` fixes the number of bins (minlength alone lets an out-of-range value grow the result)
+                size_ok = 'length' in kw and show(kw['length']).endswith(f'[{show(axis_t)}]')
+                a0s = show(args[0]) if args else ''
+                raw = ('sub', ('attr', R, 'indices'), axis_t)
+                alias_ok = bool(args) and not _only_reshapes(args[0], raw) and (' % ' in a0s or 'mod(' in a0s or 'remainder(' in a0s or ('where(' in a0s and ' lt 0' in a0s.replace('(', ' ').replace(')', ' ') or 'where(' in a0s and '< 0' in a0s))
+                ck.expect('R-PTP', alias_ok, fn, 'negative entries are mapped to their non-negative alias before the positions are binned',
+                          'the index array is passed to jnp.bincount as is: JAX clips a negative entry to bin 0 instead of counting it at the position it selects '
+                          '(n + entry), so the multiplicity diagonal of P^T P is wrong for indices with negative entries', instance='negative aliases')
+                ck.expect('R-PTP', struct_ok and axis_ok, fn, 'the diagonal lives on right.in_structure(), its values placed along the indexed axis',
+                          f'the diagonal replacing P^T P is not built on the input structure of P along the indexed axis: structure ok={struct_ok}, axis ok={axis_ok}', instance='diagonal placement')
+                used = 'bincount' in cov_s
+                ck.expect('R-PTP', uniq_ok and size_ok and used, fn, 'multiplicities = histogram of the selected positions along the indexed axis (length = the length of that axis)',
+                          f'the P^T P rewrite does not build the multiplicity diagonal consistently: bincount(index along that axis) ok={uniq_ok}, length along that axis ok={size_ok}, histogram used as the diagonal ok={used}', instance='multiplicity diagonal')
+                continue
             uniq_ok = False
             size_ok = False
             if uniq_call is not None:
@@ -810,19 +854,38 @@ def _r_ident(ck, world, table) -> None:
                       + ': an operator that changes its input is replaced by the identity', instance='no-op guard')
     # the shared reduce() of the ravel / reshape operators: where its no-op guard is not in the written form above, it is decided
     # by following the axes through RavelOperator (C13: reduce() is the identity exactly when no leaf changes)
-    pending = [o for o in ck.obs if o.rule.endswith('R-IDENT') and o.status != 'ok' and 'AbstractRavelOrReshapeOperator.reduce' in o.construct]
-    if pending:
+    # (a reduce() calling a hook that the subclasses override is specialised per subclass by the normaliser: the three names)
+    def _pend(*names):
+        return [o for o in ck.obs if o.rule.endswith('R-IDENT') and o.status != 'ok' and any(f'.{nm}.reduce' in o.construct for nm in names)]
+
+    if _pend('AbstractRavelOrReshapeOperator', 'RavelOperator', 'ReshapeOperator'):
         from types import SimpleNamespace
 
         from . import c13
 
-        sub = type(ck)(ck.pid)
-        ravel = table.by_name('RavelOperator')
-        if c13._ravel_by_evaluation(SimpleNamespace(world=world, table=table, cache={}), sub, ravel):
-            ck.obs[:] = [o for o in ck.obs if o not in pending]
-            for o in sub.obs:
-                o.rule = f'{ck.pid}.R-IDENT'
-                ck.obs.append(o)
+        sctx = SimpleNamespace(world=world, table=table, cache={})
+        pending = _pend('AbstractRavelOrReshapeOperator', 'RavelOperator')
+        if pending:
+            sub = type(ck)(ck.pid)
+            ravel = table.by_name('RavelOperator')
+            if c13._ravel_by_evaluation(sctx, sub, ravel):
+                ck.obs[:] = [o for o in ck.obs if o not in pending]
+                for o in sub.obs:
+                    o.rule = f'{ck.pid}.R-IDENT'
+                    ck.obs.append(o)
+        pending = _pend('AbstractRavelOrReshapeOperator', 'ReshapeOperator')
+        if pending:
+            reshape = table.by_name('ReshapeOperator')
+            verdict = c13._reshape_reduce_by_evaluation(sctx, reshape) if reshape is not None else None
+            fn_ = table.resolve(reshape, 'reduce').node if reshape is not None and table.resolve(reshape, 'reduce') is not None else None
+            if verdict is not None and fn_ is not None:
+                ck.obs[:] = [o for o in ck.obs if o not in pending]
+                ck.expect('R-IDENT', not verdict[1], fn_, f'on {verdict[0]} legal ReshapeOperator constructions (pytrees of one to three leaves, targets with and without -1) reduce() is the identity exactly when every leaf already has the target shape',
+                          f'{verdict[1][0] if verdict[1] else ""} ({len(verdict[1])} of {verdict[0]} constructions): an operator that changes its input is replaced by the identity', instance='reshape no-op by evaluation', semantic=True)
+            else:
+                # neither the written guard nor the evaluation decides it: undecided, never a violation from the analyser's own ignorance
+                for o in pending:
+                    o.status = 'incomplete'
     # IndexOperator.reduce: where the written guard is not recognised, reduce() is evaluated on index expressions
     pending = [o for o in ck.obs if o.rule.endswith('R-IDENT') and o.status != 'ok' and 'IndexOperator.reduce' in o.construct]
     if pending:
